@@ -6,7 +6,10 @@
    `tf` (the TensorFrame: the rid of each of its rows), plus the materialized
    flag and the column bookkeeping `col_select` edits.  Every method returns a
    new record (copy.copy + attribute assignment in the Python); the only method
-   that mutates its receiver is `materialize` (see Model/DatasetRun.v).
+   that mutates its receiver is `materialize` (see Model/DatasetRun.v).  What
+   copy.copy shares between the Python objects (the `_col_stats` dict, the
+   frame's buffers) is NOT represented: that derived datasets leave their
+   source alone is observed by the harness, not derived from this model.
 
    A raise is `None`.  Index labels are carried along but never consulted (the
    pre-fix `get_split` that did consult them lives in Legacy/DatasetLegacy.v).
@@ -39,8 +42,16 @@ Record ds := mkDs {
 Definition with_rows (d : ds) (rows : list row) (t : list nat) : ds :=
   mkDs rows (df_cols d) (stype_cols d) (target_col d) (split_col d) (materialized d) (Some t).
 
+(* keys of `{col: ... for col in cols}`: a repeated name is kept once, at its first position *)
+Fixpoint dedup_str (l : list string) : list string :=
+  match l with
+  | [] => []
+  | c :: r => c :: filter (fun x => negb (String.eqb x c)) (dedup_str r)
+  end.
+
+(* dataset.df = self.df[cols] keeps repeated names; col_to_stype is a dict *)
 Definition with_cols (d : ds) (cols : list string) : ds :=
-  mkDs (df d) cols cols (target_col d) (split_col d) (materialized d) (tf d).
+  mkDs (df d) cols (dedup_str cols) (target_col d) (split_col d) (materialized d) (tf d).
 
 Definition mem_str (c : string) (l : list string) : bool := existsb (String.eqb c) l.
 
@@ -53,15 +64,25 @@ Definition requires_pre_materialization {A} (d : ds) (body : option A) : option 
 Definition requires_post_materialization {A} (d : ds) (body : option A) : option A :=
   if materialized d then body else None.
 
-(* materialize() without a cache path: no-op when already materialized, else
-   statistics + converter; row i of the frame becomes row i of the TensorFrame *)
-Definition materialize (d : ds) : ds :=
-  if materialized d then d
-  else mkDs (df d) (df_cols d) (stype_cols d) (target_col d) (split_col d) true (Some (map rid (df d))).
+Definition count_str (c : string) (l : list string) : nat := List.length (filter (String.eqb c) l).
 
-(* the `tensor_frame` and `col_stats` properties *)
+(* materialize() without a cache path: returns self when already materialized;
+   else statistics + converter: row i of the frame becomes row i of the
+   TensorFrame.  `self.df[col]` is a DataFrame, not a Series, when the frame has
+   the column name twice (possible after col_select with a repeated name): the
+   statistics / mappers raise.  Other failures of materialization (C01) are
+   outside this model. *)
+Definition materialize (d : ds) : option ds :=
+  if materialized d then Some d
+  else if forallb (fun c => Nat.eqb (count_str c (df_cols d)) 1) (stype_cols d)
+  then Some (mkDs (df d) (df_cols d) (stype_cols d) (target_col d) (split_col d) true (Some (map rid (df d))))
+  else None.
+
+(* the `tensor_frame` and `col_stats` properties: only the gate of col_stats is
+   modelled (the statistics dict is shared between copy.copy siblings and is
+   not part of this property) *)
 Definition tensor_frame (d : ds) : option (list nat) := requires_post_materialization d (tf d).
-Definition col_stats (d : ds) : option (list string) := requires_post_materialization d (Some (stype_cols d)).
+Definition col_stats (d : ds) : option unit := requires_post_materialization d (Some tt).
 
 (* What index_select / __getitem__ accept for rows: IndexSelectType, where a
    slice may carry float bounds. *)
@@ -176,7 +197,7 @@ Definition step (d : ds) (o : op) : option ds :=
   | OShuffle perm => option_map fst (shuffle d perm)
   | OGetSplit name => get_split d name
   | OColSelect cols => col_select d cols
-  | OMaterialize => Some (materialize d)
+  | OMaterialize => materialize d
   end.
 
 (* a finite history; a raise is absorbing *)
